@@ -46,6 +46,7 @@ def run(ck, fb):
     r05i(ck, fb)
     r05j(ck, fb)
     r05k(ck, fb)
+    ck.borrow('rules.c01', {'R01v': 'R05l'}, 'the catalogue record carries every saved node address and member, whatever else the record says')
     ck.borrow('rules.c08', {'R08b': 'R05f'}, 'membership/addresses of an installed snapshot reach the index file')
 
 
